@@ -285,6 +285,9 @@ impl Driver {
                 };
                 self.send(&a);
                 let _ = self.stdin.flush();
+            } else if let Some(v) = l.strip_prefix("V ") {
+                // the model found an oracle answer that violates a contract it validates itself (e.g. AlphOK)
+                self.contract_violations.push(v.to_string());
             } else if l == "END" {
                 return out;
             } else {
